@@ -196,7 +196,7 @@ func C05(c *Ctx) {
 	checkFlip("R05.2", execPrefix+"setGlobalTxStatus", false)
 	if stg := c.P.Fn(execPrefix + "setGlobalTxStatus"); stg != nil {
 		// the flipped record is stored
-		okStore := followsAll(stg, storesToField("TransactionInfo", "GlobalState"), callToMethod("SetState"), true)
+		okStore := followsAll(stg, storesToField("TransactionInfo", "GlobalState"), c.throughHelpers(callToMethod("SetState")), true)
 		r.Check(okStore, "R05.2", "setGlobalTxStatus: flipped record stored", c.P.Pos(stg.Pos()), "every successful path from the GlobalState assignment passes SetState(global tx record)", "the flipped group record is not stored on some successful path")
 	}
 	// joining child = BEGIN only when the group is still BEGIN
